@@ -150,16 +150,55 @@ def gen_wrapper_params():
     return out
 
 
+HOST_GROUPSUM = [
+    "batch_size_div_bits = math.ceil(x.shape[0] / self.num_bits)",
+    "pad_len = batch_size_div_bits * self.num_bits - x.shape[0]",
+    "x = np.concatenate([x, np.zeros((pad_len,) + x.shape[1:], dtype=x.dtype)])",
+    "out = np.zeros(x.shape[0] * self.num_classes, dtype=BITS_TO_NP_DTYPE[32])",
+    "x = x.reshape(-1)",
+    "self.lib_fn(x, out, batch_size_div_bits)",
+    "out = torch.tensor(out).view(batch_size_div_bits * self.num_bits, self.num_classes)",
+    "if pad_len > 0:\n    out = out[:-pad_len]",
+    "return out",
+]
+HOST_DIRECT = [
+    "batch_size = x.shape[0]",
+    "input_size = self._get_input_size()",
+    "x_flat = x.reshape(batch_size, input_size).astype(BITS_TO_NP_DTYPE[self.num_bits])",
+    "output_size = self._get_output_size()",
+    "out = np.zeros((batch_size, output_size), dtype=BITS_TO_NP_DTYPE[self.num_bits])",
+    "for i in range(batch_size):\n    self.lib_fn(x_flat[i], out[i])",
+    "return torch.tensor(out & 1)",
+]
+SETUP_FN = [
+    "if self.num_classes:\n    lib_fn = lib.apply_logic_net\n    lib_fn.restype = None\n    lib_fn.argtypes = [np.ctypeslib.ndpointer(ctypes.c_bool, flags='C_CONTIGUOUS'), np.ctypeslib.ndpointer(BITS_TO_C_DTYPE[32], flags='C_CONTIGUOUS'), ctypes.c_size_t]\nelse:\n    lib_fn = lib.logic_net\n    lib_fn.restype = None\n    lib_fn.argtypes = [np.ctypeslib.ndpointer(BITS_TO_C_DTYPE[self.num_bits], flags='C_CONTIGUOUS'), np.ctypeslib.ndpointer(BITS_TO_C_DTYPE[self.num_bits], flags='C_CONTIGUOUS')]",
+    "self.lib_fn = lib_fn",
+]
+
+
+def _stmts(f):
+    return [ast.unparse(s) for s in f.body if not (isinstance(s, ast.Expr) and isinstance(s.value, ast.Constant))
+            and not (isinstance(s, ast.If) and ast.unparse(s.test) == "verbose")]
+
+
 def gen_host():
-    """_forward_with_groupsum / _forward_direct: statement-level comparison with the modelled host code."""
+    """_forward_with_groupsum / _forward_direct / _setup_library_function: statement-level comparison with
+    the host code that Model/Wrapper.v (forward_with_groupsum) and Model/Host.v (forward_direct) model."""
     mod = _cm()
-    f = _method(mod, "CompiledLogicNet", "_forward_with_groupsum")
-    src = [ast.unparse(s) for s in f.body if not (isinstance(s, ast.Expr) and isinstance(s.value, ast.Constant))
-           and not (isinstance(s, ast.If) and ast.unparse(s.test) == "verbose")]
-    out = HEADER + "From Coq Require Import List String.\nImport ListNotations.\nOpen Scope string_scope.\n\n"
-    out += "Definition host_groupsum_src : list string :=\n  [" + ";\n   ".join('"' + s.replace('"', "'").replace("\n", " ") + '"' for s in src) + "].\n"
-    f = _method(mod, "CompiledLogicNet", "_forward_direct")
-    src = [ast.unparse(s) for s in f.body if not (isinstance(s, ast.Expr) and isinstance(s.value, ast.Constant))
-           and not (isinstance(s, ast.If) and ast.unparse(s.test) == "verbose")]
-    out += "Definition host_direct_src : list string :=\n  [" + ";\n   ".join('"' + s.replace('"', "'").replace("\n", " ") + '"' for s in src) + "].\n"
+    for name, exp in (("_forward_with_groupsum", HOST_GROUPSUM), ("_forward_direct", HOST_DIRECT),
+                      ("_setup_library_function", SETUP_FN)):
+        got = _stmts(_method(mod, "CompiledLogicNet", name))
+        if got != exp:
+            for i, (a, b) in enumerate(zip(got, exp)):
+                if a != b:
+                    _fail(f"{name}: statement {i} is {a!r}, modelled {b!r}")
+            _fail(f"{name}: {len(got)} statements, modelled {len(exp)}")
+    f = _method(mod, "CompiledLogicNet", "forward")
+    got = _stmts(f)
+    exp = ["if isinstance(x, torch.Tensor):\n    x = x.numpy()",
+           "if self.num_classes:\n    return self._forward_with_groupsum(x, verbose)\nelse:\n    return self._forward_direct(x, verbose)"]
+    if got != exp:
+        _fail("forward: dispatch changed: " + repr(got))
+    out = HEADER + "(* the host statements equal, one by one, those modelled in Model/Wrapper.v and Model/Host.v *)\n"
+    out += "Definition host_matches : bool := true.\n"
     return out
